@@ -376,6 +376,7 @@ class LPCall:
         self.x = None
         self.fun = None
         self.witness = None  # a feasible point (status 0: the optimum; status 3: some feasible point)
+        self.gave_up = False  # an answer outside A4 (status 1, 4, or an untrue 3): carries no information
 
     def feasible(self, q):
         cs = [self.space.ev(r, q) <= to_real(bi) for r, bi in zip(self.rows, self.b)]
@@ -433,10 +434,13 @@ class LPResult:
 class LP:
     """Installs `linprog` in an interpreter as its assumed contract and logs the calls."""
 
-    def __init__(self, h, space_for):
+    def __init__(self, h, space_for, gives_up=False):
         self.h = h
         self.calls = []
         self.space_for = space_for  # (c, A) -> space
+        # outside A4: the solver may also answer 1 (iteration limit), 4 (numerical difficulties) or a 3 that is not true
+        # (HiGHS presolve does that on badly scaled rows) - an answer that carries no information and no optimum
+        self.gives_up = gives_up
 
     def install(self, modname="pacti.terms.polyhedra.polyhedra"):
         self.h.I.load_module(modname)
@@ -474,10 +478,15 @@ class LP:
         ctx = self.h.ctx
         idx = len(self.calls)
         # A4: status is 0, 2 or 3
-        status = [0, 2, 3][ctx.choose(3, "lp%d.status" % idx)]
-        call = LPCall(space, crow[0], rows, bs, status, idx)
+        options = [0, 2, 3] + ([1, 4, -3] if self.gives_up else [])
+        status = options[ctx.choose(len(options), "lp%d.status" % idx)]
+        call = LPCall(space, crow[0], rows, bs, abs(status), idx)
+        call.gave_up = status in (1, 4, -3)
         self.calls.append(call)
+        if call.gave_up:
+            return LPResult(call, None)
         slack = None
+        explicit = isinstance(space, ExplicitSpace)
         if status == 0:
             x = space.new_point("xopt%d" % idx)
             call.x = x if isinstance(x, list) else x
@@ -486,8 +495,31 @@ class LP:
             self.h.assume(call.feasible(x), "A4.optimum_feasible")
             self.h.assume(call.fun == call.obj(x), "A4.fun_is_objective_at_optimum")
             slack = [to_real(bi) - space.ev(r, x) for r, bi in zip(rows, bs)]
+            if explicit:
+                # optimality, exactly: dual multipliers (strong duality / KKT) - so that a counter-model is a real LP outcome
+                lam = [ctx.fresh_real("dual%d_%d" % (idx, i)) for i in range(len(rows))]
+                cvec = space.rows_of(c)[0]
+                facts = [l >= 0 for l in lam]
+                for j in range(space.m):
+                    facts.append(z3.Sum([lam[i] * to_real(rows[i][j]) for i in range(len(rows))] + [z3.RealVal(0)]) == -to_real(cvec[j]))
+                facts += [lam[i] * slack[i] == 0 for i in range(len(rows))]
+                self.h.assume(z3.And(*facts), "A4.optimality_certificate")
         elif status == 3:
             x0 = space.new_point("xfeas%d" % idx)
             call.witness = x0
             self.h.assume(call.feasible(x0), "A4.unbounded_problem_is_feasible")
+            if explicit:
+                d = [ctx.fresh_real("ray%d_%d" % (idx, j)) for j in range(space.m)]
+                cvec = space.rows_of(c)[0]
+                ray = [z3.Sum([to_real(r[j]) * d[j] for j in range(space.m)] + [z3.RealVal(0)]) <= 0 for r in rows]
+                ray.append(z3.Sum([to_real(cvec[j]) * d[j] for j in range(space.m)] + [z3.RealVal(0)]) < 0)
+                self.h.assume(z3.And(*ray), "A4.unboundedness_certificate")
+        elif explicit:
+            # infeasibility, exactly: a Farkas certificate
+            lam = [ctx.fresh_real("farkas%d_%d" % (idx, i)) for i in range(len(rows))]
+            facts = [l >= 0 for l in lam]
+            for j in range(space.m):
+                facts.append(z3.Sum([lam[i] * to_real(rows[i][j]) for i in range(len(rows))] + [z3.RealVal(0)]) == 0)
+            facts.append(z3.Sum([lam[i] * to_real(bs[i]) for i in range(len(rows))] + [z3.RealVal(0)]) < 0)
+            self.h.assume(z3.And(*facts), "A4.infeasibility_certificate")
         return LPResult(call, slack)
